@@ -172,10 +172,10 @@ def run(tier, seed):
             real2 = trainrun.real_run(cfg2, seed=rng.randrange(10 ** 6), k=meta["k"], lr=lr2, numeric_hook=True, nn_state=st,
                                       opt_args=SHARED_OPT_ARGS)
             runs.append((cfg2, real2, dict(meta, lr0=int(round(lr2 * 1e6)), plan=[], second_fit=how)))
-        if not real.get("args_same", True) or (i % 4 == 0 and real["error"] is None and not real2.get("args_same", True)):
-            chk.violation("numeric:caller-arguments-modified", dict(cfg=cfg, optimizer_args=repr(SHARED_OPT_ARGS)))
-            SHARED_OPT_ARGS.clear()
-            SHARED_OPT_ARGS["momentum"] = 0.0
+        # (a fit() that writes into the caller's dictionary is not by itself a violation: what counts is the
+        #  learning rate the later fits then use, which the trace specification checks at every step)
+        if not real.get("args_same", True):
+            chk.extra["optimizer_args_written_by_fit"] = repr(SHARED_OPT_ARGS)
 
     def attach(lines_meta):
         pass
